@@ -18,3 +18,32 @@ Theorem C04_example :
   end.
 Proof. vm_compute. auto. Qed.
 Print Assumptions C04_example.
+
+(* ---- declarative form and what is proved of it ------------------------------------------------------------ *)
+From TrV Require Import Optimal Proofs.RefSpec Proofs.ValidAdm.
+
+Theorem C04_reference_solver_correct : forall d s p acc egr,
+  wf_data_b d = true -> wf_params_b p = true -> rows_ok d acc = true ->
+  match latest_departure_ref d s p (q_time p) 0 (q_time p) acc egr with
+  | Some t => (exists rides, admissible_rev d s p acc egr t rides) /\
+              (forall dep0 rides, admissible_rev d s p acc egr dep0 rides -> dep0 <= t)
+  | None => forall dep0 rides, ~ admissible_rev d s p acc egr dep0 rides
+  end.
+Proof. exact latest_departure_ref_correct. Qed.
+Print Assumptions C04_reference_solver_correct.
+
+(* half of C04_decl: the reported departure is attained by an admissible journey (hence <= the optimum) *)
+Theorem C04_departure_attained : forall d s p acc egr,
+  opt_domain d s p acc egr -> q_fwd p = false -> C04_attained_prop d s p acc egr.
+Proof. exact C04_attained. Qed.
+Print Assumptions C04_departure_attained.
+
+(* tie to the source: the model's reverse step and best-access selection are the control skeleton instantiated with
+   the guards tools/gen_guards.py translated from reverse_calculation.cpp AS IT IS NOW (gen/Guards.v) *)
+From TrV Require Import Proofs.GuardsTie.
+Theorem C04_reverse_step_is_code : forall d p k st c, rev_step_code d p k st c = rev_step d p k false st c.
+Proof. exact rev_step_tie. Qed.
+Print Assumptions C04_reverse_step_is_code.
+Theorem C04_best_access_is_code : forall p k st, best_access_sk G.gen_rev_best_time G.gen_rev_best_ok p k st = best_access p k st.
+Proof. exact best_access_tie. Qed.
+Print Assumptions C04_best_access_is_code.
